@@ -30,7 +30,7 @@ macro_rules! c05_one {
         $r.form("op", || val(x << std::hint::black_box(s)));
         c05_inherent!($r, x, s, shl, $prim);
         if s < wof(&x) {
-            $r.form("unchecked", || val(unsafe { x.unchecked_shl(s) }));
+            $r.form_unsafe("unchecked", || val(unsafe { x.unchecked_shl(s) }));
         }
         $r.fam("shr", vec![int(&x), nat(s as u128)]);
         $r.form("checked", || opt(x.checked_shr(s)));
@@ -41,7 +41,7 @@ macro_rules! c05_one {
         $r.form("op", || val(x >> std::hint::black_box(s)));
         c05_inherent!($r, x, s, shr, $prim);
         if s < wof(&x) {
-            $r.form("unchecked", || val(unsafe { x.unchecked_shr(s) }));
+            $r.form_unsafe("unchecked", || val(unsafe { x.unchecked_shr(s) }));
         }
         $r.ev("rotate_left", vec![int(&x), nat(s as u128)], || val(x.rotate_left(s)));
         $r.ev("rotate_right", vec![int(&x), nat(s as u128)], || val(x.rotate_right(s)));
